@@ -47,6 +47,10 @@ func runC17(c *Ctx) {
 		c.MP(fn, "accept: enough member signs", acc, 1, GOk("base.CheckFactSignsBySuffrage(p.suffrage, p.threshold, var:noop.NodeSigns())"))
 		c.MP(fn, "accept: recorded as pre-processed", acc, 1, GMapUpdated("p.preprocessed"))
 		mu := c.MapUpdatesD(fn, "p.preprocessed")
+		// a candidate is marked only when it was accepted: a rejected join must not block a later valid one
+		c.MP(fn, "marked pre-processed only after the member signs were counted", mu, 1, GOk("base.CheckFactSignsBySuffrage(p.suffrage, p.threshold, var:noop.NodeSigns())"))
+		c.MP(fn, "marked pre-processed only after the constraint function passed", mu, 1, GOk("call(p.PreProcessConstraintFunc)(ctx, op, getStateFunc)"))
+		c.MP(fn, "marked pre-processed only after the candidate key matched", mu, 1, GTrue("p.findCandidateFromSigns(op)#0.Publickey().Equal("+cand+"#0.Publickey())"))
 		if c.Exists(fn, "pre-processed record", mu, 1) {
 			k := c.D(mu[0].(*ssa.MapUpdate).Key)
 			c.Report(fn, "pre-processed record keyed by the candidate", c.InstrPos(mu[0]), k == cand+"#0.Address().String()" || k == n+".String()", k)
@@ -101,6 +105,8 @@ func runC17(c *Ctx) {
 		c.MP(fn, "disjoin accept: not expelled in this block", acc, 1, GCmp("slices.IndexFunc(*)", "<", "0"))
 		c.MP(fn, "disjoin accept: constraint function passed", acc, 1, GOk("call(p.PreProcessConstraintFunc)(ctx, op, getStateFunc)"))
 		c.MP(fn, "disjoin accept: recorded as pre-processed", acc, 1, GMapUpdated("p.preprocessed"))
+		c.MP(fn, "disjoin: marked pre-processed only after the constraint function passed", c.MapUpdatesD(fn, "p.preprocessed"), 1, GOk("call(p.PreProcessConstraintFunc)(ctx, op, getStateFunc)"))
+		c.MP(fn, "disjoin: marked pre-processed only without a rejection reason", c.MapUpdatesD(fn, "p.preprocessed"), 1, GNil("call(p.PreProcessConstraintFunc)(ctx, op, getStateFunc)#0"))
 	}
 	if fn := c.Need("isaac/operation.(*SuffrageExpelProcessor).PreProcess"); fn != nil {
 		acc := acceptExits(c, fn)
@@ -111,6 +117,8 @@ func runC17(c *Ctx) {
 		c.MP(fn, "expel accept: not pre-processed in this block", acc, 1, GFalse("p.preprocessed["+n+".String()]#1"))
 		c.MP(fn, "expel accept: constraint function passed", acc, 1, GOk("call(p.PreProcessConstraintFunc)(ctx, op, getStateFunc)"))
 		c.MP(fn, "expel accept: recorded as pre-processed", acc, 1, GMapUpdated("p.preprocessed"))
+		c.MP(fn, "expel: marked pre-processed only after the constraint function passed", c.MapUpdatesD(fn, "p.preprocessed"), 1, GOk("call(p.PreProcessConstraintFunc)(ctx, op, getStateFunc)"))
+		c.MP(fn, "expel: marked pre-processed only without a rejection reason", c.MapUpdatesD(fn, "p.preprocessed"), 1, GNil("call(p.PreProcessConstraintFunc)(ctx, op, getStateFunc)#0"))
 	}
 	if fn := c.Need("isaac/operation.(*SuffrageCandidateProcessor).PreProcess"); fn != nil {
 		acc := acceptExits(c, fn)
@@ -120,6 +128,9 @@ func runC17(c *Ctx) {
 		c.MP(fn, "candidate accept: not an unexpired candidate", acc, 1, GFalse("p.existings["+a+"]#1"), GCmp("p.Height()", ">", "p.existings["+a+"]#0.Deadline()"))
 		c.MP(fn, "candidate accept: constraint function passed", acc, 1, GOk("call(p.PreProcessConstraintFunc)(ctx, op, getStateFunc)"))
 	}
+	// R17.5 order independence of the merged suffrage changes (shared with C10 R10.4)
+	c.Rule("R17.5", "SortedBeforeUse")
+	mergerOrderRules(c)
 	// R17.4 --------------------------------------------------------------------------------------
 	c.Rule("R17.4", "Dependence")
 	if fn := c.Need("isaac/operation.(*SuffrageJoinStateValueMerger).closeValue"); fn != nil {
